@@ -225,6 +225,54 @@ theorem parse_back_partial (O : Oracles) (f : Format) (e : Ep) (hc : numClass f 
     ∃ text, formatterOutput O f e none = .ok text ∧ formatParse O f text = .ok e :=
   parse_back_numClass O f e hc hutc hd hr hy
 
+/-- PARTIAL (D25): the same with a final `%T` — formats of the class `numTClass` (numeric items as above,
+    then a non-optional `%T`; the numeric item before it has exactly one separator) -/
+theorem parse_back_with_time_scale_partial (O : Oracles) (f : Format) (e : Ep) (hc : numTClass f = true)
+    (hutc : e.ts = TS.UTC) (hd : e.dur.Canon) (hr : Cal.InCal e.dur.val)
+    (hy : ∀ y mo dd h mi s ns, Cal.computeGregorian e.dur e.ts = .ok (y, mo, dd, h, mi, s, ns) → 0 ≤ y ∧ y ≤ 9999) :
+    ∃ text, formatterOutput O f e none = .ok text ∧ formatParse O f text = .ok e :=
+  parse_back_numTClass O f e hc hutc hd hr hy
+
+/-- in particular the predefined `ISO8601` (the default text form) and `ISO8601_STD` parse back for EVERY
+    canonical UTC epoch in range with year 0000–9999 -/
+theorem iso8601_parses_back (O : Oracles) (e : Ep) (hutc : e.ts = TS.UTC) (hd : e.dur.Canon) (hr : Cal.InCal e.dur.val)
+    (hy : ∀ y mo dd h mi s ns, Cal.computeGregorian e.dur e.ts = .ok (y, mo, dd, h, mi, s, ns) → 0 ≤ y ∧ y ≤ 9999) :
+    (∃ f text, constByName? "ISO8601" = some f ∧ formatterOutput O f e none = .ok text ∧ formatParse O f text = .ok e) ∧
+    (∃ f text, constByName? "ISO8601_STD" = some f ∧ formatterOutput O f e none = .ok text ∧ formatParse O f text = .ok e) := by
+  have h1 : ∃ f, constByName? "ISO8601" = some f ∧ numTClass f = true := by decide +kernel
+  have h2 : ∃ f, constByName? "ISO8601_STD" = some f ∧ numClass f = true := by decide +kernel
+  obtain ⟨f1, hf1, hc1⟩ := h1
+  obtain ⟨f2, hf2, hc2⟩ := h2
+  obtain ⟨t1, ht1⟩ := parse_back_numTClass O f1 e hc1 hutc hd hr hy
+  obtain ⟨t2, ht2⟩ := parse_back_numClass O f2 e hc2 hutc hd hr hy
+  exact ⟨⟨f1, t1, hf1, ht1⟩, ⟨f2, t2, hf2, ht2⟩⟩
+
+/-- PARTIAL (D25): parse back WITH A TIME-ZONE OFFSET — formats of the class `numZClass` (numeric items with
+    separators, a last numeric item without separator, a final non-optional `%z`: the layout of RFC 3339), any
+    canonical UTC epoch in range, any canonical offset of whole minutes in −23:59..+23:59 (the shifted epoch
+    in range with year 0000–9999): `Formatter::with_timezone(e, off, f)` prints local time and offset, and
+    `f.parse` of that text is exactly `e` (repaired defect D25z: the offset is read and undone). -/
+theorem parse_back_with_offset_partial (O : Oracles) (f : Format) (e : Ep) (off : Dur) (hc : numZClass f = true)
+    (hutc : e.ts = TS.UTC) (hd : e.dur.Canon) (hre : Cal.InCal e.dur.val)
+    (hoc : off.Canon) (hom : off.val % 60000000000 = 0) (hor : -86400000000000 < off.val ∧ off.val < 86400000000000)
+    (hr : Cal.InCal (e.add off).dur.val)
+    (hy : ∀ y mo dd h mi s ns, Cal.computeGregorian (e.add off).dur e.ts = .ok (y, mo, dd, h, mi, s, ns) → 0 ≤ y ∧ y ≤ 9999) :
+    ∃ text, formatterOutput O f e (some off) = .ok text ∧ formatParse O f text = .ok e :=
+  parse_back_numZClass O f e off hc hutc hd hre hoc hom hor hr hy
+
+/-- in particular the predefined `RFC3339` parses back for every such epoch and EVERY offset −23:59..+23:59 -/
+theorem rfc3339_parses_back (O : Oracles) (e : Ep) (off : Dur)
+    (hutc : e.ts = TS.UTC) (hd : e.dur.Canon) (hre : Cal.InCal e.dur.val)
+    (hoc : off.Canon) (hom : off.val % 60000000000 = 0) (hor : -86400000000000 < off.val ∧ off.val < 86400000000000)
+    (hr : Cal.InCal (e.add off).dur.val)
+    (hy : ∀ y mo dd h mi s ns, Cal.computeGregorian (e.add off).dur e.ts = .ok (y, mo, dd, h, mi, s, ns) → 0 ≤ y ∧ y ≤ 9999) :
+    ∃ f text, constByName? "RFC3339" = some f ∧ formatterOutput O f e (some off) = .ok text ∧
+      formatParse O f text = .ok e := by
+  have h1 : ∃ f, constByName? "RFC3339" = some f ∧ numZClass f = true := by decide +kernel
+  obtain ⟨f, hf, hc⟩ := h1
+  obtain ⟨t, ht⟩ := parse_back_numZClass O f e off hc hutc hd hre hoc hom hor hr hy
+  exact ⟨f, t, hf, ht⟩
+
 def fmtOf (s : String) : Format := match formatFromStr (Cal.strCodes s) with | .ok f => f | _ => ⟨[]⟩
 def O0 : Oracles := ⟨fun _ => 0, fun _ => none⟩
 def backOf (s : String) (e : Ep) : Res Ep :=
@@ -255,6 +303,12 @@ theorem parse_back_counterexamples :
     backOf "%Y-%m-%d,;%A %H:%M:%S.%f" ⟨⟨0, 86400000000037⟩, .UTC⟩ ≠ .ok ⟨⟨0, 86400000000037⟩, .UTC⟩ ∧
     backOf "%Y %d %H:%M:%S.%f %B" ⟨⟨0, 86400000000037⟩, .UTC⟩ ≠ .ok ⟨⟨0, 86400000000037⟩, .UTC⟩ := by
   decide +kernel
+
+/-- the offset theorem on a concrete case through the whole model: 1900-01-02T00:00:00.000000037 UTC printed
+    at −05:30 (`1900-01-01T18:30:00.000000037-05:30`) parses back -/
+example : (match formatterOutput O0 (fmtOf "%Y-%m-%dT%H:%M:%S.%f%z") ⟨⟨0, 86400000000037⟩, .UTC⟩ (some ⟨-1, 3155740200000000000⟩) with
+    | .ok t => formatParse O0 (fmtOf "%Y-%m-%dT%H:%M:%S.%f%z") t
+    | _ => .err) = .ok ⟨⟨0, 86400000000037⟩, .UTC⟩ := by decide +kernel
 
 /-- … while formats outside `numClass` but inside `backOk` do parse back on that epoch (names with
     harmless separators, `%j`, a final `%T`, `%z`): exercised on every run by the correspondence check -/
